@@ -484,6 +484,14 @@ pub fn random_doc(rng: &mut Rng, safe: bool) -> Doc {
             let mut siblings = filler(rng, 2, &forbidden, safe);
             let at = rng.below(siblings.len() + 1);
             siblings.insert(at, Node::El(e));
+            if !safe && rng.chance(1, 8) {
+                // a raw-text element (noscript, noembed, noframes, xmp, iframe) next to the chain element whose text
+                // looks like another occurrence of it: raw text is not markup, the path does not run through it
+                let raw_tag = *rng.pick(&["noscript", "noembed", "noframes", "xmp", "iframe", "NoScript"]);
+                let text = format!("<{tag} class=\"raw\">in raw text</{tag}><img src=\"p.gif\">");
+                let at = rng.below(siblings.len() + 1);
+                siblings.insert(at, Node::El(plain_element(raw_tag, &[], Kind::Normal, Some(&text))));
+            }
             if k + 1 == below_body.len() && rng.chance(1, 4) {
                 // repeated sibling occurrences of the innermost element (replace targets)
                 repeated_innermost = true;
